@@ -88,6 +88,9 @@ static std::string runOne(const Case &c, bool emitSched)
   for (int i = 0; i < 16; ++i) ws->active[i] = wsB->active[i] = true;
   auto ch = std::make_shared<SseChannel>("c");
   auto wch = std::make_shared<WsChannel>("w");
+  // pin the channel's server (the FIRST subscribe records it): subB<s> is then always "a different server" (L-1)
+  wch->subscribe(*ws, (SessionId)15);
+  wch->unsubscribe((SessionId)15);
   auto streams = std::make_shared<std::vector<std::shared_ptr<SseStream>>>();
   streams->push_back(nullptr);
   for (int i = 1; i <= c.n; ++i) streams->push_back(std::make_shared<SseStream>(*srv, (SessionId)i));
